@@ -49,6 +49,17 @@ def run_one(sc, prefix=(), seed=0, keep=False):
         end = w.now + 4.6 + npackets(dll, m['size']) * (0.012 if not p2p else 0.001) * 5
         gave_up = {}
         late = {}
+        seen_rx = {st.name: [0, None] for st in net.stacks}      # [rx_log entries consumed, time of the last non-abort frame received]
+
+        def last_progress_rx(st):
+            # a received connection abort ends a session, it does not prolong it: the clock keeps running from the last other frame
+            ent = seen_rx[st.name]
+            for (t, idx) in st.rx_log[ent[0]:]:
+                f = net.bus.log[idx]
+                if not is_abort(dll, f, f.sa, f.ps):
+                    ent[1] = t
+            ent[0] = len(st.rx_log)
+            return ent[1]
         while w.now < end:
             w.run_for(STEP)
             if all(net.is_idle(st) for st in net.stacks) and not w.events:
@@ -63,7 +74,7 @@ def run_one(sc, prefix=(), seed=0, keep=False):
                     gave_up.setdefault(st.name, w.now)
                     continue
                 gave_up.pop(st.name, None)
-                last = max(x for x in (st.last_rx_t, st.last_tx_t, rt.T0) if x is not None)
+                last = max(x for x in (last_progress_rx(st), st.last_tx_t, rt.T0) if x is not None)
                 sent = [f for f in net.bus.log if f.src == st.name]
                 sup = st.suppressed
                 last_sent_is_eoms = False
